@@ -23,7 +23,7 @@ import (
 
 func init() {
 	register("C15", core.Spec{
-		Decides:    "structural necessary conditions of 'RAC readers survive hostile files': (V) every index node that rac.ChunkReader loads from the file passes rNode.valid()==true before any rNode accessor reads it or any success exit is taken (sites tryRootNode, loadAndValidate; the root reload in resolveSeekPosition is the one exemption, justified by checking that rootNodeCOffset/rootNodeArity are stored only after validation), the parent/child guard (codec, version, COffMax, DOffMax) and the in-file guards dominate loadAndValidate's success return / its Seek+ReadFull, and every accessor use elsewhere is dominated by a checked initialize/findRootNode/loadAndValidate; (R) every loop reachable from ChunkReader.NextChunk / SeekToChunkContaining / DecompressedSize is a counted loop with a loop-invariant bound, a bisection, or the index-descent loop, and the descent loop carries the RAC specification's anti-loop ranking guard (child Branch COffset < parent's OR child DPtrMax < parent's, parent values flowing from the call site), decided exactly over the weak orderings of the compared values; no recursion in that call tree; (S) every error that leaves a ChunkReader method is in ChunkReader.err first (io.EOF from NextChunk excepted) — this is what makes the `initialized` early return safe — and every error obtained from a call (Seek, io.ReadFull, NextChunk, MakeDecompressor, decompressor Read/Close, concReader) that leaves a rac.Reader method is in Reader.err first; inside `if err != nil` on such an error no return is reached without the store; no error result of a call is discarded; exported methods consult the sticky state first; (D) racdict.Loader.Load returns dictionary bytes only past the length, fit and CRC-32 guards, and never leaves cachedRange naming a buffer it is about to overwrite (S.eof) no io.EOF obtained from reading the compressed file (io.ReadFull, Read, ReadAt, a codec handed the file, or a package function passing one on; package-local fixpoint) is stored in ChunkReader.err / Reader.err without a comparison excluding it, and the only functions that can return io.EOF are the end-of-stream reporters: a truncated or over-claimed file surfaces as an error, never as a normal end of stream. (V.root.coffmax) a root node's location is recorded only past `COffMax == CompressedSize`, for a root found at either end of the file",
+		Decides:    "structural necessary conditions of 'RAC readers survive hostile files': (V) every index node that rac.ChunkReader loads from the file passes rNode.valid()==true before any rNode accessor reads it or any success exit is taken (sites tryRootNode, loadAndValidate; the root reload in resolveSeekPosition is the one exemption, justified by checking that rootNodeCOffset/rootNodeArity are stored only after validation), the parent/child guard (codec, version, COffMax, DOffMax) and the in-file guards dominate loadAndValidate's success return / its Seek+ReadFull, and every accessor use elsewhere is dominated by a checked initialize/findRootNode/loadAndValidate; (R) every loop reachable from ChunkReader.NextChunk / SeekToChunkContaining / DecompressedSize is a counted loop with a loop-invariant bound, a bisection, or the index-descent loop, and the descent loop carries the RAC specification's anti-loop ranking guard (child Branch COffset < parent's OR child DPtrMax < parent's, parent values flowing from the call site), decided exactly over the weak orderings of the compared values; no recursion in that call tree; (S) every error that leaves a ChunkReader method is in ChunkReader.err first (io.EOF from NextChunk excepted) — this is what makes the `initialized` early return safe — and every error obtained from a call (Seek, io.ReadFull, NextChunk, MakeDecompressor, decompressor Read/Close, concReader) that leaves a rac.Reader method is in Reader.err first; inside `if err != nil` on such an error no return is reached without the store; no error result of a call is discarded; exported methods consult the sticky state first; (D) racdict.Loader.Load returns dictionary bytes only past the length, fit and CRC-32 guards, and never leaves cachedRange naming a buffer it is about to overwrite (S.eof) no io.EOF obtained from reading the compressed file (io.ReadFull, Read, ReadAt, a codec handed the file, or a package function passing one on; package-local fixpoint) is stored in ChunkReader.err / Reader.err without a comparison excluding it, and no function of the package returns such a foreign io.EOF to its caller: a truncated or over-claimed file surfaces as an error, never as a normal end of stream. (V.root.coffmax) a root node's location is recorded only past `COffMax == CompressedSize`, for a root found at either end of the file",
 		NotDecided: "absence of implicit panics on index/slice expressions; the arithmetic of 'chunks are inside the file, ascending, contiguous and end at the decompressed size' (rNode.valid's own checks and cOffRange/dOffRange are not re-derived); determinism of decode; that the file does not change between initialize and a later root reload; termination of ChunkReader.NextChunk's OUTER `for {}` loop, which is only *assumed* (its progress — seekPosition advances past at least one non-empty DRange per resolve — is value-level) and is printed as INFO; termination of rac.Reader.Read's loops (progress depends on the decompressor); the concurrent reader (C14); behaviour of the caller-supplied ReadSeeker/CodecReader; a ranking guard placed anywhere other than inside the node-loading callee of the descent loop is not recognised (reported as undecided)",
 		Assumptions: []string{
 			"go/types, go/cfg (x/tools v0.29.0) model Go control flow faithfully; a branch condition is one CFG node (short-circuit operands are handled by the rules themselves)",
